@@ -24,6 +24,7 @@ import (
 
 	"verif/internal/ev"
 	"verif/internal/gen"
+	"verif/internal/memnet"
 	"verif/internal/refcodec"
 )
 
@@ -244,6 +245,36 @@ func decodeAll(p *dict.Parser, wire []byte) (fail *ev.Failure, reached bool) {
 	if err == nil && m != nil {
 		if f := inspectUnmeasured(m, render); f != nil {
 			return f, reached
+		}
+	}
+	// --- the same bytes through the other ways into ReadMessage: without a dictionary argument
+	// (nil selects dict.Default) and from a multi-stream (SCTP) reader, which has a read path of
+	// its own; the allocation bound for claimed-but-missing bytes applies there as well
+	if f := guard("ReadMessage(nil dictionary)", func() {
+		if m2, err2 := diam.ReadMessage(bytes.NewReader(wire), nil); err2 == nil && m2 != nil {
+			_, _ = m2.Serialize()
+			_ = m2.Len()
+		}
+	}); f != nil {
+		return f, reached
+	}
+	if truncated := hdr != nil && int(hdr.MessageLength) > len(wire); truncated || len(wire) <= 1024 {
+		be := memnet.NewSCTP()
+		be.Feed(memnet.Chunk{Stream: 3, Data: wire})
+		be.FeedEOF()
+		before = totalAlloc()
+		var merr error
+		if f := guard("ReadMessage(SCTP)", func() {
+			var m3 *diam.Message
+			if m3, merr = diam.ReadMessage(diam.NewVerifSCTPConn(be), p); merr == nil && m3 != nil {
+				_, _ = m3.Serialize()
+			}
+		}); f != nil {
+			return f, reached
+		}
+		if used := totalAlloc() - before; truncated && used > uint64(truncA+truncB*len(wire)) {
+			return ev.Failf("over-allocation", "ReadMessage from a multi-stream (SCTP) reader: a %d-byte input whose header declares %d bytes made it allocate %d bytes (bound %d); error: %v; input starts % x",
+				len(wire), declaredLen(hdr), used, truncA+truncB*len(wire), merr, clip(wire)), reached
 		}
 	}
 	// --- the AVP-level entry points on the body
